@@ -35,6 +35,8 @@ type Decision struct {
 	Frozen  bool // part of a donated prefix: never flipped by this worker
 	Unchecked bool // flipped alternative whose feasibility has not been checked yet
 	M       Model  // a model of the path condition just before this decision (immutable snapshot)
+	AltM    Model  // a model of the path condition plus the alternative side (when AltChecked)
+	AltChecked bool
 }
 
 type InputRec struct {
@@ -95,6 +97,7 @@ type Exec struct {
 	arithInt   bool
 	rcache     map[*Term]*rendered
 	startModel Model
+	prunedAlts int
 	intSolved  int
 	modelStale bool
 	gaddr      map[*ssa.Global]uint64
@@ -118,6 +121,8 @@ type frame struct {
 }
 
 const zeroBase = 0x5a0000
+
+var stepLog = os.Getenv("VERIF_STEPLOG") != ""
 
 func (ex *Exec) resetPath() {
 	ex.globals = map[*ssa.Global]*Cell{}
@@ -562,8 +567,14 @@ func (ex *Exec) branch(c *Term) bool {
 		ex.extendReplay(side)
 		return d.Taken
 	}
+	ex.ensureModel()
 	taken := ex.evalModel(c).Bool()
 	d := &Decision{Kind: 'b', Taken: taken, AltOpen: true, M: ex.model}
+	alt := c
+	if taken {
+		alt = Not(c)
+	}
+	ex.checkAlt(d, alt)
 	ex.trail = append(ex.trail, d)
 	ex.pos++
 	if taken {
@@ -572,6 +583,22 @@ func (ex *Exec) branch(c *Term) bool {
 		ex.extend(Not(c), true)
 	}
 	return taken
+}
+
+// checkAlt decides eagerly whether the side not taken is feasible, so that an infeasible alternative never
+// costs a re-execution; the model of a feasible alternative is kept for the flip.
+func (ex *Exec) checkAlt(d *Decision, alt *Term) {
+	v, m := ex.solve(alt, ex.inputVars())
+	switch v {
+	case Unsat:
+		d.AltOpen = false
+		ex.prunedAlts++
+	case Sat:
+		d.AltChecked = true
+		d.AltM = m
+	default:
+		// unknown: explore it; the flip re-checks with the full portfolio and reports inconclusive if needed
+	}
 }
 
 // extendReplay re-asserts a side already known feasible; the model is refreshed lazily.
@@ -671,6 +698,7 @@ func (ex *Exec) pick(t *Term) uint64 {
 		val := ex.evalModel(t).C
 		c := Eq(t, &Term{Op: "const", S: t.S, C: val})
 		d := &Decision{Kind: 'v', Taken: true, AltOpen: true, Val: val, M: ex.model}
+		ex.checkAlt(d, Not(c))
 		ex.trail = append(ex.trail, d)
 		ex.pos++
 		ex.extend(c, true)
@@ -954,6 +982,9 @@ func (ex *Exec) runBlocks(fr *frame) Value {
 			ex.steps++
 			if ex.steps > ex.budget {
 				panic(pathEnd{"budget", fmt.Sprintf("step budget %d exhausted in %s", ex.budget, fr.fn)})
+			}
+			if stepLog && ex.steps%200000 == 0 {
+				fmt.Fprintf(os.Stderr, "STEP %d depth=%d pc=%d trail=%d/%d stack=%v\n", ex.steps, ex.depth, len(ex.pc), ex.pos, len(ex.trail), ex.callStack[max(0, len(ex.callStack)-6):])
 			}
 			if ex.stepLimit > 0 && ex.steps > ex.stepLimit {
 				ex.stepLimit = 0
